@@ -59,8 +59,24 @@ func synthModels(r *rand.Rand) []synthModel {
 		}
 		return t
 	}
+	// tensors of a mebibyte and more (2^18 + 37 float32): a raw Constant decoded in every Run, and a bias weight of lower rank than
+	// the operand it is added to, shared by all Runs (a size at which a library may switch to another strategy)
+	const largeN = 262144 + 37
+	largeT := func(base int) AbsTensor {
+		t := AbsTensor{Dt: "f32", Shape: []int{largeN}, Data: make([]Elem, largeN), Enc: "raw"}
+		for i := range t.Data {
+			t.Data[i] = IntElem(int64(base + i%29))
+		}
+		return t
+	}
 	return []synthModel{
 		{"many_weights", many},
+		{"large_constant_bias", mModel{
+			Nodes: []mNode{
+				{Op: "Constant", Attrs: []Attr{{"value", "t", rawJ(largeT(3))}}, Ins: []string{}, Outs: []string{"lc"}},
+				{Op: "Add", Attrs: []Attr{}, Ins: []string{"x", "lc"}, Outs: []string{"ya"}},
+				{Op: "Mul", Attrs: []Attr{}, Ins: []string{"x", "lbias"}, Outs: []string{"yb"}}},
+			Inputs: []mInput{dynInput("x", largeN)}, Outputs: []string{"ya", "yb"}, Inits: []mInit{{"lbias", largeT(-7)}}}},
 		{"two_unnamed_constants", mModel{Unnamed: true,
 			Nodes: []mNode{
 				{Op: "Constant", Attrs: []Attr{{"value", "t", rawJ(constT(100))}}, Ins: []string{}, Outs: []string{"ca"}},
@@ -145,7 +161,7 @@ func batchSynthModels(r *rand.Rand) []synthModel {
 	var out []synthModel
 	for _, m := range synthModels(r) {
 		// (rows of thousands of values are too long a JSON line for the trace specification; views of weights have no batch axis)
-		if m.name != "raw_constant_add" && m.name != "two_unnamed_constants" && m.name != "weight_views" && m.name != "weight_fanout" {
+		if m.name != "raw_constant_add" && m.name != "two_unnamed_constants" && m.name != "weight_views" && m.name != "weight_fanout" && m.name != "large_constant_bias" {
 			out = append(out, m)
 		}
 	}
